@@ -225,7 +225,7 @@ def shrink_control(case):
 
 def finish_result(engine, result):
     """Fill in the generic parts of a Result from an engine."""
-    result.events = engine.world.events
+    result.events = list(engine.world.events)
     result.sim_time = engine.loop.time()
     result.ticks = engine.loop.tick
     for (context, kind), count in engine.contexts.items():
